@@ -158,6 +158,8 @@ def build():
                         params = p
                 params = params or []
                 have_default = [p for p in params if p in attrs]
+                geo = attrs.get('geometry')
+                geo = int(geo[1]) if (is_expr(geo) and geo[0] == 'num' and geo[1].denominator == 1) else None
                 fm = find_method(chain, '_run')
                 names, first, mut, rargs = (None, False, [], [])
                 if fm:
@@ -165,7 +167,7 @@ def build():
                 rel = os.path.relpath(path, REPO)
                 out.append({'class': cname, 'module': rel[:-3].replace('/', '.'), 'file': rel, 'params': params,
                             'with_default': have_default, 'names': names, 'first_is_input': first, 'mutations': mut,
-                            'run_args': rargs, 'bases': [c.name for m, c in chain[1:]],
+                            'geometry_default': geo, 'run_args': rargs, 'bases': [c.name for m, c in chain[1:]],
                             'own_methods': [st.name for st in cnode.body if isinstance(st, ast.FunctionDef)]})
     out.sort(key=lambda d: (d['module'], d['class']))
     return out
@@ -180,15 +182,16 @@ def emit(cat):
              "From Coq Require Import List String Bool.", "Import ListNotations.", "",
              "Record solver_desc := {", "  s_class : string; s_module : string; s_params : list string; s_with_default : list string;",
              "  s_names_known : bool; s_names : list string; s_first_is_input : bool; s_mutates_input : bool;",
-             "  s_bases : list string; s_own_methods : list string }.", "",
+             "  s_bases : list string; s_own_methods : list string; s_geometry_default : option nat }.", "",
              "Definition all_solvers : list solver_desc := ["]
     items = []
     for d in cat:
-        items.append("  {| s_class := %s; s_module := %s; s_params := [%s]; s_with_default := [%s];\n     s_names_known := %s; s_names := [%s]; s_first_is_input := %s; s_mutates_input := %s;\n     s_bases := [%s]; s_own_methods := [%s] |}" % (
+        items.append("  {| s_class := %s; s_module := %s; s_params := [%s]; s_with_default := [%s];\n     s_names_known := %s; s_names := [%s]; s_first_is_input := %s; s_mutates_input := %s;\n     s_bases := [%s]; s_own_methods := [%s]; s_geometry_default := %s |}" % (
             q(d['class']), q(d['module']), '; '.join(q(p) for p in d['params']), '; '.join(q(p) for p in d['with_default']),
             'true' if d['names'] is not None else 'false', '; '.join(q(n) for n in (d['names'] or [])),
             'true' if d['first_is_input'] else 'false', 'true' if d['mutations'] else 'false',
-            '; '.join(q(b) for b in d['bases']), '; '.join(q(b) for b in d['own_methods'])))
+            '; '.join(q(b) for b in d['bases']), '; '.join(q(b) for b in d['own_methods']),
+            ('Some %d' % d['geometry_default']) if d['geometry_default'] is not None and d['geometry_default'] >= 0 else 'None'))
     lines.append(';\n'.join(items))
     lines.append("].")
     return '\n'.join(lines) + '\n'
